@@ -92,6 +92,11 @@ impl Peer {
         pieces_status: &mut Vec<Status>,
         metainfo: &Metainfo,
     ) -> UnchokeCmd {
+        // Repeated Unchoke: release the piece requested so far, it will be replaced by a new one
+        if !self.choked {
+            self.handle_choke(pieces_status);
+        }
+
         let cmd = match chosen_index {
             Some(chosen_index) => {
                 pieces_status[chosen_index] = match pieces_status[chosen_index] {
